@@ -395,6 +395,18 @@ func c08defaults(c *Ctx, rd *reader, rule string) {
 					}
 				}
 			}
+			// or binary.BigEndian.AppendUint16(empty, uint16(code)) followed by appends of the text
+			if !put {
+				if base, _ := appendChain(p.Results[0]); base.Kind == core.KCall {
+					if f, isF := base.Ref.(*ssa.Function); isF && extName(f) == "(encoding/binary.bigEndian).AppendUint16" && len(base.Args) >= 2 {
+						v := strip(base.Args[len(base.Args)-1])
+						dst := base.Args[len(base.Args)-2]
+						if l, isC := p.X.Len(dst).Int64(); isC && l == 0 && v.Kind == core.KParam && v.Ref == fcm.Params[0] {
+							put = true
+						}
+					}
+				}
+			}
 			// or the two bytes stored individually: buf[0] = byte(code >> 8), buf[1] = byte(code) — decided by
 			// evaluating the stored terms for sample codes covering both bytes
 			if !put {
